@@ -111,19 +111,19 @@ Definition dispatch_c17 (fn : N) (args : list sexp) : sexp :=
   match fn, args with
   | 1, [nb; nodes] =>
     match dec_bool nb, dec_list dec_node nodes with
-    | Some nb, Some nodes => enc_res (enc_list enc_row) (to_rows UU N.eqb nb nodes)
+    | Some nb, Some nodes => enc_res (enc_list enc_row) (@to_rows UU N.eqb nb nodes)
     | _, _ => s_badinput
     end
   | 2, [nb; nodes] =>
     match dec_bool nb, dec_list dec_node nodes with
-    | Some nb, Some nodes => enc_res (enc_option (enc_list enc_ucells)) (export_strip UU N.eqb nb nodes)
+    | Some nb, Some nodes => enc_res (enc_option (enc_list enc_ucells)) (@export_strip UU N.eqb nb nodes)
     | _, _ => s_badinput
     end
   | 3, [s] => match dec_str s with Some s => enc_str (mangle_string s) | None => s_badinput end
   | 4, [A n] => enc_str (dec_of_N n)
   | 5, [nodes] =>
     match dec_list dec_node nodes with
-    | Some nodes => enc_bool (flow_ok UU nodes)
+    | Some nodes => enc_bool (@flow_ok UU nodes)
     | None => s_badinput
     end
   | _, _ => s_badinput
